@@ -664,14 +664,34 @@ Definition write_target (fx : facts) (t : target) (newv : val) : res facts :=
       end
   end.
 
-(* WorkingMemory.ResetElement: besides the readers of the assigned element, the readers of every element variable of the
-   same container whose selector may denote the same element - any pair of selectors except two different literals *)
-Definition lit_sel (sel : expr) : bool := match sel with EAtom (AConst _) => true | _ => false end.
-Definition may_alias (x v : var) : bool :=
-  match x, v with
-  | VSel c s, VSel c' s' => var_eqb c' c && negb (var_eqb v x) && negb (lit_sel s && lit_sel s')
+(* WorkingMemory.ResetAssigned: besides the readers of the assigned variable, the readers of every variable whose access
+   path may denote the same location.  Paths are compared component by component: a member and a literal string key are
+   the same component (o.k and o["k"]), two different literal selectors never meet, any other selector may denote any
+   element - at every level of the path (Items[Idx].Price and Items[0].Price). *)
+Inductive pcomp := PName (n : string) | PField (n : string) | PIndex (i : Z) | PAny.
+Fixpoint apath (v : var) : list pcomp :=
+  match v with
+  | VName n => [PName n]
+  | VMember v' n => apath v' ++ [PField n]
+  | VSel v' (EAtom (AConst (CStr k))) => apath v' ++ [PField k]
+  | VSel v' (EAtom (AConst (CInt i))) => apath v' ++ [PIndex i]
+  | VSel v' _ => apath v' ++ [PAny]
+  end.
+Definition comp_meet (a b : pcomp) : bool :=
+  match a, b with
+  | PAny, _ | _, PAny => true
+  | PName x, PName y | PField x, PField y => String.eqb x y
+  | PIndex i, PIndex j => Z.eqb i j
   | _, _ => false
   end.
+Fixpoint paths_meet (p q : list pcomp) : bool :=
+  match p, q with
+  | [], [] => true
+  | a :: p', b :: q' => comp_meet a b && paths_meet p' q'
+  | _, _ => false
+  end.
+Definition lit_sel (sel : expr) : bool := match sel with EAtom (AConst (CStr _)) | EAtom (AConst (CInt _)) => true | _ => false end.
+Definition may_alias (x v : var) : bool := negb (var_eqb v x) && paths_meet (apath x) (apath v).
 Definition reset_set (x : var) : list var := x :: filter (may_alias x) allvars.
 Definition reset_variables (s : estate) (xs : list var) : estate := fold_left reset_variable xs s.
 Definition reset_assigned (s : estate) (x : var) : estate := reset_variables s (reset_set x).
